@@ -431,6 +431,19 @@ func (u *clientUpdater) updateService(ctx context.Context, service ServiceDefini
 	if err != nil {
 		return fmt.Errorf("failed to wipe on testSeed change (service=%s, testSeed=%s): %w", service.ID, seed, err)
 	}
+	if currentTimestamp != 0 && len(presentations) > 0 {
+		// If the store was just wiped (seed change: the timestamp was reset to 0), the server was reset. The response above is the
+		// answer to "everything after the timestamp of the previous server instance", so it lacks the entries the new instance
+		// registered at or before that timestamp: discard it and start over from timestamp 0.
+		// (if the response is empty there is nothing to discard, the next update starts at timestamp 0)
+		timestampAfterWipe, err := u.store.getTimestamp(service.ID)
+		if err != nil {
+			return err
+		}
+		if timestampAfterWipe == 0 {
+			return u.updateService(ctx, service)
+		}
+	}
 	// Process the entries in the order in which they were registered, and store every entry with its own timestamp (instead of the server's latest).
 	// Otherwise, when an entry can't be processed (e.g. database error or the node being stopped), the other entries in the response
 	// would never be retrieved again, since the stored timestamp would already be past them.
